@@ -32,6 +32,17 @@ const sdpH265 = "v=0\r\no=- 0 0 IN IP4 127.0.0.1\r\ns=t\r\nc=IN IP4 127.0.0.1\r\
 	"a=fmtp:97 profile-level-id=1;mode=AAC-hbr;sizelength=13;indexlength=3;indexdeltalength=3; config=121056E500\r\n" +
 	"a=control:streamid=1\r\n"
 
+// HEVC with the parameter sets in the SDP (service/rtsp/sdp_test.go): the depacketizer and the FLV muxer are
+// ready from the first packet on (chain mode)
+var sdpH265Sprop = strings.Replace(sdpH265, "a=rtpmap:96 H265/90000\r\n",
+	"a=rtpmap:96 H265/90000\r\na=fmtp:96 sprop-vps=QAEMAf//BAgAAAMAnQgAAAMAAF26AkA=; "+
+		"sprop-sps=QgEBBAgAAAMAnQgAAAMAAF2wAoCALRZbqSTK4BAAAAMAEAAAAwHggA==; sprop-pps=RAHBcrRiQA==\r\n", 1)
+
+// chain mode (case field 13 = per consumer: 1 = FLV consumer): RTP packets are published, the FLV consumers get
+// what the conversion chain (rtp demuxer -> FLV muxer -> WriteFlvTag) makes of them.  The converter goroutines
+// are not controlled: after every step of the publisher the controller waits until they are idle again.
+var chainMode bool
+
 // the same streams with G.711 audio (raw samples: the first payload byte is arbitrary, no depacketizer)
 var sdpH264PCMA = sdpH264[:strings.Index(sdpH264, "m=audio")] +
 	"m=audio 0 RTP/AVP 8\r\na=rtpmap:8 PCMA/8000\r\na=control:streamid=1\r\n"
@@ -91,6 +102,16 @@ func (r *rec) Consume(p media.Pack) {
 	} else {
 		tg := p.(*flv.Tag)
 		id, data = tagID(tg), append([]byte{tg.TagType}, tg.Data...)
+		if chainMode { // the muxer's configuration tags carry no id: -1 metadata, -2 video, -3 audio sequence header
+			switch {
+			case tg.TagType == flv.TagTypeAmf0Data:
+				id = -1
+			case tg.TagType == flv.TagTypeVideo && len(tg.Data) > 1 && tg.Data[1] == 0:
+				id = -2
+			case tg.TagType == flv.TagTypeAudio && len(tg.Data) > 1 && tg.Data[1] == 0:
+				id = -3
+			}
+		}
 	}
 	r.mu.Lock()
 	r.out = append(r.out, id)
@@ -260,7 +281,13 @@ func Run(c Val) Val {
 	if h265 {
 		sdpText = sdpH265
 	}
-	if c.At(12).Bool() { // G.711 audio instead of AAC
+	chain := c.At(13).List()
+	chainMode = len(chain) > 0 && !flvMode
+	isFlv := func(i int) bool { return flvMode || (chainMode && i < len(chain) && chain[i].Bool()) }
+	if chainMode && h265 {
+		sdpText = sdpH265Sprop
+	}
+	if c.At(12).Bool() && !chainMode { // G.711 audio instead of AAC
 		sdpText = sdpH264PCMA
 		if h265 {
 			sdpText = sdpH265PCMA
@@ -329,7 +356,7 @@ func Run(c Val) Val {
 		ctl.Go("att:"+strconv.Itoa(i), func() {
 			// the consumer id is fixed inside startConsume; learn it at attach.snapped via AtID
 			pt := media.RTPPacket
-			if flvMode {
+			if isFlv(i) {
 				pt = media.FLVPacket
 			}
 			cid := s.StartConsume(recs[i], pt, "lts")
@@ -412,6 +439,9 @@ func Run(c Val) Val {
 			outs[j] = I(id)
 			// byte identity: the delivered packet hashes like the packet that was published under that id
 			var odata []byte
+			if chainMode && isFlv(i) {
+				continue // converted tags: their content is C08's subject
+			}
 			if rv, ok := rawOf[id]; ok && !flvMode {
 				odata = packetOf(rv).Data
 			} else if !flvMode {
@@ -460,6 +490,24 @@ func Run(c Val) Val {
 	kp := code(ctl.Status("close"), map[string]int64{"h.start": 0, "close.status": 1, "sweep.zero": 2, "done": 5})
 	todo := remaining
 	out := L(L(consV...), I(int64(rc)), Bo(media.VerifStatus(s) == media.StreamOK), I(pp), I(int64(todo)), I(kp))
+	if chainMode {
+		// two observations, one per side; a consumer of the other side is reported as never attached
+		never := L(L(), I(0), I(0), Bo(false), I(-1), Bo(false), I(0), I(5), Bo(true))
+		side := func(flvSide bool) []Val {
+			v := make([]Val, n)
+			for i := range v {
+				if isFlv(i) == flvSide {
+					v[i] = consV[i]
+				} else {
+					v[i] = never
+				}
+			}
+			return v
+		}
+		ok := Bo(media.VerifStatus(s) == media.StreamOK)
+		out = L(L(L(side(false)...), I(int64(rc)), ok, I(pp), I(int64(todo)), I(kp)),
+			L(L(side(true)...), I(int64(fc)), ok, I(0), I(int64(todo)), I(kp)))
+	}
 	ctl.Finish()
 	s.Close()
 	// let the goroutines of this stream run to their end before the next case installs its controller:
